@@ -49,6 +49,8 @@ type RunConfig struct {
 	// CutOnUnwind turns an exceeded loop bound into "outside the stated bound" (for loops
 	// whose trip count is the stated bound itself, e.g. the number of proof lines).
 	CutOnUnwind bool
+	// MaxWallSec stops the exploration of this harness after that many seconds (result: truncated).
+	MaxWallSec int
 	// ExpectPanic lists panic sites (substring match) that the harness treats as its subject.
 	Quiet bool
 }
@@ -156,6 +158,7 @@ type Explorer struct {
 	covered  map[string]bool
 	notes    map[string]bool
 	stop     bool
+	t0       time.Time
 	kfSeen   map[string]bool
 	vioSeen  map[string]int
 }
@@ -180,6 +183,7 @@ func Run(w *World, cfg *RunConfig) (*Report, error) {
 	ex.rep = &Report{Harness: cfg.Harness, Covers: map[string]*CoverHit{}, Params: cfg.Params, Solver: string(cfg.Solver)}
 	ex.work = append(ex.work, nil)
 	t0 := time.Now()
+	ex.t0 = t0
 	var wg sync.WaitGroup
 	var solvers []*Solver
 	var smu sync.Mutex
@@ -272,7 +276,7 @@ func (ex *Explorer) worker(s *Solver) {
 		ex.mu.Lock()
 		ex.active--
 		ex.merge(res)
-		if ex.rep.Paths >= ex.Cfg.MaxPaths {
+		if ex.rep.Paths >= ex.Cfg.MaxPaths || (ex.Cfg.MaxWallSec > 0 && time.Since(ex.t0) > time.Duration(ex.Cfg.MaxWallSec)*time.Second && (len(ex.work) > 0 || ex.active > 0)) {
 			ex.stop = true
 			ex.rep.Truncated = true
 		}
